@@ -1,20 +1,24 @@
 # run parameters and manifest texts of the C18 check (read by ../props.py)
-PROP = dict(
-    engine="stack", test="TestC18", level="exploration",
-    quick=dict(checks=220, shards=14, timeout=1500),
-    thorough=dict(checks=2000, shards=14, timeout=3400),
-    rule="snapshot (init-caching) mode. rapid draws the runtime's behaviour {parks in restore/next and then: finishes its hook after h ms and "
-         "asks for next / reports restore/error(type) / reports init/error(type) / stalls / exits; or polls next directly}, the hook timeout "
-         "{100, 300 ms}, h shorter than, about equal to or longer than the timeout, reported error types (valid, junk, near misses), three "
-         "random credential triples (initial, restore 1, restore 2), an optional second restore, and 0-5 credential fetches before / after "
-         "the restores with the instance token, a wrong one, none, or near misses. Oracle: restore succeeds only after restore/next returned "
-         "and the runtime's next was issued (sequence numbers); a hook longer than the timeout or stalling gives Runtime.RestoreHookUserTimeout "
-         "not before the timeout and within 1.5 s after it; a reported error gives the sanitised type (independent anchored specification); "
-         "an exit gives Runtime.ExitError; a runtime that never polled restore gives success within 1 s; credentials only with the token "
-         "(else 404) and always those of the most recent restore; the runtime's environment has the credentials URI of the real API "
-         "address and a token but no key material. Non-trivial: hook outcome other than plain success, or >=3 restore/credential operations.",
-    assumptions=["fake process supervisor (DESIGN 3.4)", "restore is requested only after initialisation completed (platform protocol)", "60 ms margin decides whether a hook duration counts as shorter/longer than the timeout"],
-    level_text="random search over runtime behaviours, timings around the hook timeout and credential tokens against the real restore handler and credentials endpoint.",
-    level_note="a restore request before initialisation completed is outside the protocol and not generated",
-    technique="property-based testing (rapid): generated behaviours and timings, history invariant with sequence numbers and one-sided time bounds, independent sanitiser specification",
-)
+PROP = {'engine': 'stack',
+ 'test': 'TestC18',
+ 'level': 'exploration',
+ 'quick': {'checks': 220, 'shards': 14, 'timeout': 1500},
+ 'thorough': {'checks': 6000, 'shards': 14, 'timeout': 3400},
+ 'rule': "snapshot (init-caching) mode. rapid draws the runtime's behaviour {parks in restore/next and then: finishes its hook after h ms and asks "
+         'for next / reports restore/error(type) / reports init/error(type) / stalls / exits; or polls next directly}, the hook timeout {100, 300 '
+         'ms}, h shorter than, about equal to or longer than the timeout, reported error types (valid, junk, near misses), three random credential '
+         'triples (initial, restore 1, restore 2), an optional second restore, and 0-5 credential fetches before / after the restores with the '
+         "instance token, a wrong one, none, or near misses. Oracle: restore succeeds only after restore/next returned and the runtime's next was "
+         'issued (sequence numbers); a hook longer than the timeout or stalling gives Runtime.RestoreHookUserTimeout not before the timeout and '
+         'within 1.5 s after it; a reported error gives the sanitised type (independent anchored specification); an exit gives Runtime.ExitError; a '
+         'runtime that never polled restore gives success within 1 s; credentials only with the token (else 404) and always those of the most recent '
+         "restore; the runtime's environment has the credentials URI of the real API address and a token but no key material. Non-trivial: hook "
+         'outcome other than plain success, or >=3 restore/credential operations.',
+ 'assumptions': ['fake process supervisor (DESIGN 3.4)',
+                 'restore is requested only after initialisation completed (platform protocol)',
+                 '60 ms margin decides whether a hook duration counts as shorter/longer than the timeout'],
+ 'level_text': 'random search over runtime behaviours, timings around the hook timeout and credential tokens against the real restore handler and '
+               'credentials endpoint.',
+ 'level_note': 'a restore request before initialisation completed is outside the protocol and not generated',
+ 'technique': 'property-based testing (rapid): generated behaviours and timings, history invariant with sequence numbers and one-sided time bounds, '
+              'independent sanitiser specification'}
